@@ -14,7 +14,7 @@ from . import smt
 
 def clause_parts(c, default_tags):
     if isinstance(c, tuple):
-        tags = tuple(t.strip() for t in c[0].split(","))
+        tags = tuple(t.strip().rstrip("!") for t in c[0].split(","))
         return tags, c[1]
     return tuple(default_tags), c
 
@@ -323,6 +323,14 @@ def val_json(run, m, v, depth=0):
         return val_json(run, m, v.val, depth + 1)
     if isinstance(v, SArr1):
         return {"array1": val_json(run, m, v.val, depth + 1), "ndim": v.ndim}
+    if isinstance(v, SOpaque) and v.sort == "Det":
+        f = run.ctx.ufs.get("drift_state_of")
+        ds = None
+        if f is not None:
+            code = ev(f(v.t))
+            sl = run.ctx.str_list
+            ds = None if code == 0 else (sl[code - 1] if isinstance(code, int) and 1 <= code <= len(sl) else "other")
+        return {"opaque": "Det", "id": ev(v.t), "meta": {"drift_state": ds}}
     if isinstance(v, SOpaque):
         return {"opaque": v.sort, "id": ev(v.t), "meta": {k_: val_json(run, m, x, depth + 1) for k_, x in v.meta.items()}}
     if isinstance(v, tuple):
